@@ -153,22 +153,12 @@ Theorem bipartition_is_compatible_spec : forall a b f r, f <> 0 ->
 Proof. exact bip_compatible_spec_l. Qed.
 Print Assumptions bipartition_is_compatible_spec.
 
-(* is_compatible_with(int): the int is used as given (recorded finding): an int that names a split by
-   the side containing the lowest taxon is judged differently from the Bipartition object built from
-   the same int (refuted); in the repaired form (int normalised when self is not rooted; the harness
-   decides by replay which form the working tree has) the predicate is set-theoretic compatibility
-   for every int. *)
-Theorem is_compatible_with_int_refuted :
-  exists a b f r, f <> 0 /\ is_true r = false /\
-    (mdisjoint (snd (mk_bip a f r)) (Z.land f b) \/ msubset (snd (mk_bip a f r)) (Z.land f b) \/
-     msubset (Z.land f b) (snd (mk_bip a f r)) \/ Z.lor (snd (mk_bip a f r)) (Z.land f b) = f) /\
-    bip_is_compatible_with_int false r (snd (mk_bip a f r)) b f = false /\
-    bip_is_compatible_with (snd (mk_bip a f r)) (snd (mk_bip b f r)) f = true.
-Proof. exact bip_compatible_int_refuted_l. Qed.
-Print Assumptions is_compatible_with_int_refuted.
-
+(* is_compatible_with(int) on a bipartition that is not rooted: the int is normalised like the split of
+   the Bipartition built from it, so the predicate is set-theoretic compatibility for EVERY int,
+   whichever side of the split it names (repaired in /repo c50cd9ba; before that an int naming the
+   split by its lowest-taxon side was rejected) *)
 Theorem is_compatible_with_int_repaired_spec : forall a b f r, f <> 0 -> is_true r = false ->
-  (bip_is_compatible_with_int true r (snd (mk_bip a f r)) b f = true <->
+  (bip_is_compatible_with_int r (snd (mk_bip a f r)) b f = true <->
    (mdisjoint (snd (mk_bip a f r)) (snd (mk_bip b f r)) \/ msubset (snd (mk_bip a f r)) (snd (mk_bip b f r)) \/
     msubset (snd (mk_bip b f r)) (snd (mk_bip a f r)) \/ Z.lor (snd (mk_bip a f r)) (snd (mk_bip b f r)) = f)).
 Proof. exact bip_compatible_int_repaired_l. Qed.
